@@ -129,6 +129,8 @@ pub struct StoredClass {
 pub struct StoredSchema {
     pub attrs: BTreeMap<String, StoredAttr>,
     pub classes: BTreeMap<String, StoredClass>,
+    /// attributes that exist only for protocol mapping and may never be stored
+    pub phantom: BTreeSet<String>,
 }
 
 fn strs(e: &E, a: Attribute) -> BTreeSet<String> {
@@ -148,6 +150,11 @@ pub fn stored_schema(entries: &[E]) -> StoredSchema {
                         unique: dump::proto_values(e, Attribute::Unique).first().map(|v| v == "true").unwrap_or(false),
                     },
                 );
+                if dump::proto_values(e, Attribute::Phantom).first().map(|v| v == "true").unwrap_or(false) {
+                    if let Some(n) = dump::proto_values(e, Attribute::AttributeName).into_iter().next() {
+                        s.phantom.insert(n);
+                    }
+                }
             }
         }
         if e.has_class(&EntryClass::ClassType) {
@@ -345,4 +352,150 @@ pub fn spn_violations(entries: &[E]) -> Vec<(&'static str, String)> {
         }
     }
     out
+}
+
+// ------------------------------------------------------------------------------------------------
+// C15: every stored live entry satisfies the schema
+
+/// The schema definitions as plain data, from the loaded schema's attribute/class tables. Used
+/// only where the server stores no schema entries (domain level >= 1.11); the validation logic
+/// below is the harness's own either way.
+pub async fn schema_from_memory(node: &Node) -> StoredSchema {
+    use kanidmd_lib::schema::SchemaTransaction;
+    let r = node.qs.read().await.expect("read");
+    let sch = r.get_schema();
+    let mut s = StoredSchema::default();
+    for (n, a) in sch.get_attributes() {
+        s.attrs.insert(
+            n.to_string(),
+            StoredAttr {
+                syntax: a.syntax.to_string(),
+                multivalue: a.multivalue,
+                unique: a.unique,
+            },
+        );
+        if a.phantom {
+            s.phantom.insert(n.to_string());
+        }
+    }
+    for (n, c) in sch.get_classes() {
+        let set = |a: &Vec<Attribute>, b: &Vec<Attribute>| a.iter().chain(b.iter()).map(|x| x.to_string()).collect::<BTreeSet<String>>();
+        let sset = |a: &Vec<AttrString>, b: &Vec<AttrString>| a.iter().chain(b.iter()).map(|x| x.to_string()).collect::<BTreeSet<String>>();
+        s.classes.insert(
+            n.to_string(),
+            StoredClass {
+                must: set(&c.systemmust, &c.must),
+                may: set(&c.systemmay, &c.may),
+                supplements: sset(&c.systemsupplements, &c.supplements),
+                excludes: sset(&c.systemexcludes, &c.excludes),
+            },
+        );
+    }
+    s
+}
+
+pub const SIG_SCHEMA: &str = "stored live entry violates the schema";
+
+/// Own, syntax-specific validity predicates for the syntaxes the generators produce (others: the
+/// syntax tag of the stored value set is compared only).
+fn value_ok(syntax: &str, proto: &str) -> bool {
+    match syntax {
+        "UTF8STRING_INAME" => !proto.is_empty() && proto == proto.to_lowercase() && !proto.contains('@') && Uuid::parse_str(proto).is_err(),
+        "UTF8STRING_INSENSITIVE" => proto == proto.to_lowercase(),
+        "BOOLEAN" => proto == "true" || proto == "false",
+        "UINT32" => proto.parse::<u32>().is_ok(),
+        "UUID" | "REFERENCE_UUID" => true,
+        "EMAIL_ADDRESS" => proto.contains('@'),
+        "SECURITY_PRINCIPAL_NAME" => proto.matches('@').count() >= 1,
+        _ => true,
+    }
+}
+
+/// Schema discrepancies of all live entries (recycled, tombstone and conflict entries are exempt).
+pub fn schema_violations(entries: &[E], schema: &StoredSchema) -> Vec<String> {
+    let mut out = Vec::new();
+    for e in entries.iter().filter(|e| status_of(e) == Status::Live) {
+        let u = e.get_uuid();
+        let classes: BTreeSet<String> = dump::proto_values(e, Attribute::Class).into_iter().collect();
+        if classes.is_empty() {
+            out.push(format!("{u}: no class"));
+            continue;
+        }
+        let mut must: BTreeSet<&String> = BTreeSet::new();
+        let mut may: BTreeSet<&String> = BTreeSet::new();
+        let mut supplements: BTreeSet<&String> = BTreeSet::new();
+        let mut unknown = false;
+        for c in &classes {
+            match schema.classes.get(c) {
+                None => {
+                    out.push(format!("{u}: class {c} is not defined"));
+                    unknown = true;
+                }
+                Some(def) => {
+                    must.extend(def.must.iter());
+                    may.extend(def.may.iter());
+                    supplements.extend(def.supplements.iter());
+                    for x in &def.excludes {
+                        if classes.contains(x) {
+                            out.push(format!("{u}: class {c} excludes {x}, both present"));
+                        }
+                    }
+                }
+            }
+        }
+        if unknown {
+            continue;
+        }
+        if !supplements.is_empty() && !supplements.iter().any(|s| classes.contains(*s)) {
+            out.push(format!("{u}: none of the supplemented classes {supplements:?} present (classes {classes:?})"));
+        }
+        for m in &must {
+            if !e.attribute_pres(Attribute::from(m.as_str())) {
+                out.push(format!("{u}: required attribute {m} missing (classes {classes:?})"));
+            }
+        }
+        let extensible = classes.contains("extensibleobject");
+        for a in e.get_ava_names() {
+            let Some(def) = schema.attrs.get(a) else {
+                out.push(format!("{u}: attribute {a} is not defined"));
+                continue;
+            };
+            if extensible {
+                if schema.phantom.contains(a) {
+                    out.push(format!("{u}: phantom attribute {a} stored"));
+                }
+            } else if !(must.iter().any(|m| m.as_str() == a) || may.iter().any(|m| m.as_str() == a)) {
+                out.push(format!("{u}: attribute {a} not allowed by classes {classes:?}"));
+            }
+            let Some(vs) = e.get_ava_set(Attribute::from(a)) else { continue };
+            // (built-in classtype entries store empty multi-valued systemmay/systemmust/... sets;
+            // the property speaks about single-valued attributes only)
+            if !def.multivalue && vs.len() != 1 {
+                out.push(format!("{u}: single-valued attribute {a} has {} values", vs.len()));
+            }
+            let tag = vs.syntax().to_string();
+            if tag != def.syntax {
+                out.push(format!("{u}: attribute {a} holds {tag} values, schema says {}", def.syntax));
+            } else {
+                for p in vs.to_proto_string_clone_iter() {
+                    if !value_ok(&def.syntax, &p) {
+                        out.push(format!("{u}: attribute {a} value {p:?} is not a valid {}", def.syntax));
+                    }
+                }
+            }
+        }
+    }
+    out
+}
+
+/// Replication resolves equal timestamps by comparing the (random) server uuids. To keep replicated
+/// histories replayable, make timestamps of different replicas never collide: replica i only
+/// writes at seconds congruent to i modulo the number of replicas. Call before every step.
+pub fn untie_clocks(cl: &mut crate::repl::Cluster) {
+    let n = cl.nodes.len() as u64;
+    for (i, node) in cl.nodes.iter_mut().enumerate() {
+        while node.clock % n != i as u64 {
+            node.clock += 1;
+        }
+    }
 }
